@@ -364,3 +364,63 @@ def g2_partial_ord(F, R):
             R.bad(name, f"`PartialOrd for {name}` is not `Some(self.cmp(other))`: `sort()` orders through `lt`, so pairs for which partial_cmp answers None (e.g. diagnostics of different files) are left in discovery order although `Ord` orders them", f["sp"])
     if n == 0:
         raise Anchor("no hand-written PartialOrd next to an Ord")
+
+
+def _coarse_eq_types(F):
+    """workspace struct types whose hand-written `==` leaves out a field: {type base: [ignored fields]}"""
+    out = {}
+    for i in F.impls:
+        if (i.get("trait") or "").split("::")[-1] != "PartialEq":
+            continue
+        ty = re.sub(r"<.*", "", i["self_ty"])
+        a = F.adts.get(ty)
+        if not a or len(a.get("variants", [])) != 1:
+            continue
+        tr = i.get("trait_ref") or ""
+        # only `T == T`, not `T == U`
+        if "PartialEq<" in tr and not tr.endswith("PartialEq<" + i["self_ty"] + ">>") and not tr.endswith("PartialEq>"):
+            continue
+        for it in i["items"]:
+            if it["name"] != "eq":
+                continue
+            g = F.fns.get(it["path"])
+            if not g or "hir" not in g or (g.get("exp") or "").startswith("Derive"):
+                continue
+            used = {n["name"] for n in walk(g["hir"]["value"], pats=False) if n.get("k") == "Field" and ekey(n["e"]).lstrip("&*") in ("self", "other")}
+            used |= {m["name"] for m in walk(g["hir"]["value"], pats=False) if m.get("k") == "MethodCall" and ekey(m["recv"]).lstrip("&*") in ("self", "other")}
+            fields = [f_["name"] for f_ in a["variants"][0]["fields"]]
+            ignored = [f_ for f_ in fields if f_ not in used]
+            if ignored and used:
+                out[ty] = ignored
+    return out
+
+
+@rule("C10", "G2.report-once-filters-use-exact-keys", floor=1)
+def c10_filters(F, R):
+    """a lint may suppress repeats with a "seen" set, but which of two items survives such a filter depends on the order in which they arrive - for lints that order is a hash order - so the filter is only harmless when its key distinguishes everything the diagnostic shows: a key type whose `==` ignores a field (`With<T>` compares the register and forgets the token, i.e. the location) merges different diagnostics, and the survivor changes from run to run"""
+    from .p_cfg import pass_impls, LINTPASS
+    coarse = _coarse_eq_types(F)
+    if not coarse:
+        R.note("no struct with a hand-written `==` that ignores a field")
+    R.ok("coarse-types", detail=f"types whose == ignores a field: { {short(k): v for k, v in coarse.items()} }")
+    lints = pass_impls(F, LINTPASS)
+    n = 0
+    for ty, rp in sorted(lints.items()):
+        g = F.fns.get(rp)
+        if not g or "hir" not in g:
+            continue
+        bodies = [g] + [F.fns[q] for q in F.fns if q.startswith(rp + "::{closure") and "hir" in F.fns[q]]
+        for b in bodies:
+            for m in walk(b["hir"]["value"], pats=False):
+                if m.get("k") == "MethodCall" and m["name"] in ("insert", "contains", "dedup", "dedup_by_key", "unique", "unique_by") and m.get("recv") is not None:
+                    rty = strip_ty(recv_ty(m) or m["recv"].get("ty") or "")
+                    if not (rty.startswith("std::collections::hash::set::HashSet") or rty.startswith("std::collections::hash::map::HashMap") or rty.startswith("alloc::vec::Vec") or rty.startswith("alloc::collections::btree")):
+                        continue
+                    hit = [t for t in coarse if t + "<" in rty or rty.endswith("<" + t + ">") or ("<" + t + ",") in rty]
+                    if not hit:
+                        continue
+                    n += 1
+                    t = hit[0]
+                    R.bad(f"{short(ty)}|{m['name']}|{short(t)}", f"{short(ty)} filters what it reports through `{ekey(m)[:50]}` on a collection of `{short(t)}`, whose `==` ignores {coarse[t]}: two diagnostics at different places count as one, and which of them is reported depends on the (hash) order they are met in", loc(m))
+    if n == 0:
+        R.ok("lints", detail=f"{len(lints)} lints: no report-once filter keyed by a type with a coarse ==")
